@@ -18,8 +18,10 @@ import (
 	"os"
 	"os/exec"
 	"path/filepath"
+	"regexp"
 	"runtime"
 	"sort"
+	"strconv"
 	"strings"
 	"sync"
 	"time"
@@ -37,7 +39,7 @@ type BsPart struct {
 }
 type Bs []BsPart
 
-func Lit(b []byte) Bs     { return Bs{{Lit: b}} }
+func Lit(b []byte) Bs      { return Bs{{Lit: b}} }
 func Rep(n int, c byte) Bs { return Bs{{N: n, C: c}} }
 func (b Bs) Bytes() []byte {
 	var o []byte
@@ -154,23 +156,61 @@ type Submission struct {
 }
 
 type Scenario struct {
-	ID         string
-	Entry      string // "client" | "detector"
-	UseCfg     bool
-	NoConn     int // seconds (0 = default)
-	ReConn     int
-	ListenFrom int // ms; dials before are refused
-	Cancel     int // ms; the context is cancelled then (every scenario ends that way); <= 0: before the call
-	Sensitive  bool
-	Conns      []ConnScript
-	SubStart   int            // ms after onconnect
-	Subs       [][]Submission // per submitter goroutine
-	MeasureMem bool
-	RecvFrom   int // ms: the consumer of msgsFromPanel starts receiving only then (0 = at once)
+	ID           string
+	Entry        string // "client" | "detector"
+	UseCfg       bool
+	NoConn       int // seconds (0 = default)
+	ReConn       int
+	ListenFrom   int // ms; dials before are refused
+	Cancel       int // ms; the context is cancelled then (every scenario ends that way); <= 0: before the call
+	Sensitive    bool
+	Conns        []ConnScript
+	SubStart     int            // ms after onconnect
+	Subs         [][]Submission // per submitter goroutine
+	MeasureMem   bool
+	RecvFrom     int    // ms: the consumer of msgsFromPanel starts receiving only then (0 = at once)
 	SubConn      int    // submissions start at this (0-based) onconnect; -1: before the call (queued when the connection comes up)
 	ConnectSleep int    // ms the onconnect callback takes
 	ConnectWrite []byte // bytes the onconnect callback writes to the conn it is handed
 	HookDelay    int    // ms: the writer goroutine of the FIRST connection is held at its start for this long (verif hook; runs alone)
+	// harness-only knobs (not part of the model's input; carried in the scenario ID for replays, see knobSuffix):
+	ReadPauseFrom int  // ms after its accept from which the panel of connection 0 stops READING what the client writes (0 = never)
+	ReadPauseTo   int  // ms at which it reads again (0 with ReadPauseFrom > 0 = never again): back-pressure on the client's writer
+	ToPanelCap    int  // capacity of the msgsToPanel channel (0 = unbuffered)
+	SharedBacking bool // all lists of one submitter are sub-slices of ONE array with spare capacity behind each of them
+}
+
+// knobs travel in the ID so that a replayed case line reproduces them: name~pf700~pt0~cap16~sh
+func (sc *Scenario) knobSuffix() string {
+	s := ""
+	if sc.ReadPauseFrom > 0 {
+		s += fmt.Sprintf("-PF%d-PT%d", sc.ReadPauseFrom, sc.ReadPauseTo)
+	}
+	if sc.ToPanelCap > 0 {
+		s += fmt.Sprintf("-CAP%d", sc.ToPanelCap)
+	}
+	if sc.SharedBacking {
+		s += "-SHARED"
+	}
+	return s
+}
+
+var knobRe = regexp.MustCompile(`-(PF|PT|CAP)(\d+)|-(SHARED)`)
+
+func (sc *Scenario) parseKnobs() {
+	for _, m := range knobRe.FindAllStringSubmatch(sc.ID, -1) {
+		v, _ := strconv.Atoi(m[2])
+		switch {
+		case m[1] == "PF":
+			sc.ReadPauseFrom = v
+		case m[1] == "PT":
+			sc.ReadPauseTo = v
+		case m[1] == "CAP":
+			sc.ToPanelCap = v
+		case m[3] == "SHARED":
+			sc.SharedBacking = true
+		}
+	}
 }
 
 // ---------- canonical digests (oracle values for unmarshal / decode / marshal) ----------
@@ -273,7 +313,11 @@ func runScenario(sc *Scenario) []Sx {
 			peersMu.Unlock()
 			idx := i
 			lg.add(func(t int) Sx { return L(Sym("acc"), idx, t) })
-			go servePeer(lg, pr, &sc.Conns[i], time.Now())
+			pf, pt := 0, 0
+			if idx == 0 {
+				pf, pt = sc.ReadPauseFrom, sc.ReadPauseTo
+			}
+			go servePeer(lg, pr, &sc.Conns[i], time.Now(), pf, pt)
 		}
 	}
 	if len(sc.Conns) == 0 {
@@ -313,7 +357,7 @@ func runScenario(sc *Scenario) []Sx {
 	} else {
 		var wg sync.WaitGroup
 		hookDone := installWriterHook(sc, lg)
-		toPanel := make(chan []*rwp.InboundMessage)
+		toPanel := make(chan []*rwp.InboundMessage, sc.ToPanelCap)
 		fromPanel := make(chan []*rwp.OutboundMessage)
 		recvDone := make(chan struct{})
 		go func() {
@@ -332,6 +376,28 @@ func runScenario(sc *Scenario) []Sx {
 				subWG.Add(1)
 				go func(list []Submission) {
 					defer subWG.Done()
+					if sc.SharedBacking {
+						// one array; every list is a window of it with spare capacity behind it; the windows
+						// are NOT handed in in ascending order (0, 2, 1, 4, 3, ...): a list still waiting in
+						// the channel lies right behind one that was submitted before it
+						win := make([]int, len(list)) // win[k] = index of the list that occupies window k
+						for k := range win {
+							win[k] = k
+						}
+						for k := 1; k+1 < len(win); k += 2 {
+							win[k], win[k+1] = win[k+1], win[k]
+						}
+						var all []*rwp.InboundMessage
+						off := make([]int, len(list))
+						for _, i := range win {
+							off[i] = len(all)
+							all = append(all, list[i].Msgs...)
+						}
+						list = append([]Submission(nil), list...)
+						for i := range list {
+							list[i].Msgs = all[off[i] : off[i]+len(list[i].Msgs)]
+						}
+					}
 					time.Sleep(time.Duration(sc.SubStart) * time.Millisecond)
 					for _, s := range list {
 						if s.Delay > 0 {
@@ -465,11 +531,30 @@ func runScenario(sc *Scenario) []Sx {
 	return ev
 }
 
-func servePeer(lg *obsLog, pr *peerRec, cs *ConnScript, base time.Time) {
+func servePeer(lg *obsLog, pr *peerRec, cs *ConnScript, base time.Time, pauseFrom, pauseTo int) {
 	go func() { // reader: drains everything the client writes, notes how the stream ends
 		buf := make([]byte, 65536)
 		for {
+			if pauseFrom > 0 { // the panel does not read during [pauseFrom, pauseTo) (pauseTo 0: never again)
+				now := int(time.Since(base) / time.Millisecond)
+				if now >= pauseFrom && (pauseTo == 0 || now < pauseTo) {
+					if pauseTo == 0 {
+						select {} // the socket is closed by the harness at the end of the scenario
+					}
+					time.Sleep(time.Until(base.Add(time.Duration(pauseTo) * time.Millisecond)))
+				} else if now < pauseFrom {
+					pr.conn.SetReadDeadline(base.Add(time.Duration(pauseFrom) * time.Millisecond))
+				} else {
+					pr.conn.SetReadDeadline(time.Time{})
+				}
+			}
 			n, err := pr.conn.Read(buf)
+			if ne, ok := err.(net.Error); ok && ne.Timeout() && pauseFrom > 0 {
+				lg.mu.Lock()
+				pr.recv = append(pr.recv, buf[:n]...)
+				lg.mu.Unlock()
+				continue
+			}
 			lg.mu.Lock()
 			pr.recv = append(pr.recv, buf[:n]...)
 			if err != nil {
@@ -648,7 +733,11 @@ func receivedOracle(ev []Sx) Sx {
 
 func (sc *Scenario) caseSx(ev []Sx) Sx {
 	in := sc.inputSx()
-	out := []Sx{Sym("scn"), Sym(sc.ID)}
+	id := sc.ID
+	if !strings.Contains(id, sc.knobSuffix()) {
+		id += sc.knobSuffix()
+	}
+	out := []Sx{Sym("scn"), Sym(id)}
 	out = append(out, in...)
 	if len(sc.Subs) > 0 {
 		out = append(out, receivedOracle(ev))
@@ -666,6 +755,7 @@ func parseScenario(line string) *Scenario {
 	}
 	sc := &Scenario{ID: n.Kids[1].Atom}
 	sc.MeasureMem = strings.Contains(sc.ID, "-mem-")
+	sc.parseKnobs()
 	cfg := n.Kids[2].Kids
 	sc.Entry = cfg[1].Atom
 	sc.UseCfg = cfg[2].Bool()
